@@ -73,7 +73,9 @@ def cases(tier, seed):
                     for fam in (INF_FAMILIES if infinite else FIN_FAMILIES):
                         for kind in KINDS:
                             for extra in (False, True):
-                                for order, loss in ((1, "lin"), (2, "lin"), (2, "sq")):
+                                for order, loss in ((1, "lin"), (2, "lin"), (2, "sq"), (2, "sq0")):
+                                    if loss == "sq0" and (kind not in ("pure", "nn") or extra):
+                                        continue
                                     for plane in planes:
                                         for orient in orients:
                                             if orient == "rev" and infinite:
@@ -88,6 +90,17 @@ def cases(tier, seed):
                                                 if plane > 0:
                                                     c["seed"] = int(seed)
                                             out.append(c)
+    # ---- one differentiable tensor in two places (two slots of params / held by the module and passed explicitly)
+    for n in (3, 7):
+        for nb in (None, NB_QUICK[n]):
+            for fl in ("num", "tg", "inf"):
+                for fu in ("num", "tg", "inf"):
+                    infinite = "inf" in (fl, fu)
+                    for fam in (INF_FAMILIES if infinite else FIN_FAMILIES):
+                        for kind in ("pure_twice", "nn_twice"):
+                            for order, loss in ((1, "lin"), (2, "lin"), (2, "sq")):
+                                out.append({"family": fam, "n": n, "nb": nb, "xl_form": fl, "xu_form": fu, "kind": kind,
+                                            "extra": False, "order": order, "loss": loss})
     # ---- caller-supplied method callable (composite midpoint rule): inherited by the backward integral
     for n in (3, 7):
         for nb in (None, NB_QUICK[n]):
@@ -240,6 +253,29 @@ def _build(kind, fam, P, extra, dtens, spy):
         def f(x, *args):
             return spy(x, args)
         return f, tuple(P)
+
+    if kind == "pure_twice":
+        # the first differentiable tensor occupies TWO slots of params (it enters as the mean of the two)
+        def f(x, *args):
+            a = list(args[:npar])
+            a[0] = 0.5 * (a[0] + args[npar])
+            return spy(x, a)
+        return f, tuple(P) + (P[0],)
+
+    if kind == "nn_twice":
+        # a parameter of the module is ALSO passed explicitly
+        class M2(torch.nn.Module):
+            def __init__(self):
+                super().__init__()
+                for i, p in enumerate(P):
+                    setattr(self, "p%d" % i, p)
+
+            def forward(self, x, p0again):
+                a = [getattr(self, "p%d" % i) for i in range(npar)]
+                a[0] = 0.5 * (a[0] + p0again)
+                return spy(x, a)
+        m = M2()
+        return m.forward, (P[0],)
 
     if kind in ("nn", "nn_extra"):
         class M(torch.nn.Module):
@@ -448,7 +484,7 @@ def run_case(cfg):
     nexec = 0
 
     # ---- parameters
-    if kind in ("nn", "nn_extra"):
+    if kind in ("nn", "nn_extra", "nn_twice"):
         P = [torch.nn.Parameter(p.clone()) for p in fam.pvals]
     else:
         P = [p.clone().requires_grad_() for p in fam.pvals]
@@ -503,6 +539,11 @@ def run_case(cfg):
     if loss == "lin":
         Ly = sum((v * yy).sum() for v, yy in zip(fam.cot, ys))
         U = [v.clone() for v in fam.cot]
+    elif loss == "sq0":
+        # quadratic objective AT its minimum: the cotangent 2 v (y - y*) that reaches quad is exactly zero, the
+        # first-order gradients are exactly zero, but they depend on the inputs (second order = Gauss-Newton term)
+        Ly = sum((v * (yy - yy.detach()) ** 2).sum() for v, yy in zip(fam.cot, ys))
+        U = [torch.zeros_like(v) for v in fam.cot]
     else:
         Ly = sum((v * yy * yy).sum() for v, yy in zip(fam.cot, ys))
         U = [2.0 * v * yy.detach() for v, yy in zip(fam.cot, ys)]
@@ -639,7 +680,7 @@ def run_case(cfg):
     if S is None:
         obs["second"] = "first-order gradients carry no graph"
         # legitimate only if every first-order reference gradient is constant in all inputs
-        dep = any(gr.requires_grad for gr in gP_ref) or bool(lims) or loss == "sq"
+        dep = any(gr.requires_grad for gr in gP_ref) or bool(lims) or loss in ("sq", "sq0")
         if dep:
             viol.append(V("first-order-gradient-not-differentiable", {"inputs": [lab for lab, _, _ in inputs]}, phase="backward1"))
         return {"viol": viol, "obs": obs, "status": "violation" if viol else "ok", "n": nexec}
@@ -695,7 +736,7 @@ def run_case(cfg):
                 zU[i - nP] = zU[i - nP] + sign * rr * gk
                 zUmag[i - nP] = zUmag[i - nP] + abs(rr) * gk.abs()
     Wc = None
-    if loss == "sq":
+    if loss in ("sq", "sq0"):
         Wc = [2.0 * v * z for v, z in zip(fam.cot, zU)]
         Wm = [2.0 * v.abs() * (z.abs() + m) for v, z, m in zip(fam.cot, zU, zUmag)]
         accB, _ = rule_grads(lambda xi: fam.phi(xi, Pl, Wc), Pl, False)
